@@ -1,0 +1,13 @@
+//go:build verif
+
+package readline
+
+import (
+	"io"
+
+	"github.com/reeflective/readline/internal/core"
+)
+
+// VerifSetStdin replaces the reader used for key input.
+// It only exists in builds made with the "verif" build tag.
+func VerifSetStdin(r io.ReadCloser) { core.Stdin = r }
